@@ -73,6 +73,12 @@ CLAIMED.update({
    note="Hierarchy (containment, references, top instance) is cube-split over two fixtures; hierarchical references are atoms over the path table. Outside: deeper/wider designs, INSIDE/OUTSIDE/BOTH selections, get_hpins/get_hcables/get_hports variants.", design_ref="§4 C12"),
 })
 
+CLAIMED.update({
+ "C11": dict(engine="E1", technique="bounded symbolic execution of the real HRef.get_all_hrefs_of_instances on hierarchy-concrete fixtures with a symbolic set of wanted instances + z3",
+   text="Bounded, partial: for each listed design and for ALL subsets of its instances at once (symbolic membership), z3 shows the references returned are exactly the instance paths of the elaborated design ending in a wanted instance, once each, nothing else, no exception. This is the 'no omission / no duplicate' core of the property; canonical identity (flyweight, hash), is_valid/is_unique after edits and the get_h* name filters are not claimed.",
+   note="Hierarchy cube-split over the fixtures; hierarchical references as atoms over the path table.", design_ref="§4 C11"),
+})
+
 NA_REASON = "check not built yet in this round (see DESIGN.md §7 build order); no claim is made"
 
 def main():
